@@ -7,7 +7,7 @@ bursts; its ordered trace of shared-memory steps is replayed through the Lean tr
 Only benign commands are generated (the command text is built inside the harness from numbers:
 sleep / echo / a counting loop / `kill -KILL $$` / `exit 3`)."""
 ID = "C20"
-EXTRA_PROPS = ["ScrollFnsTables", "DedupeFnsTables"]   # act_scroll_down / act_scroll_right as TRANSLATED from src/previewer.rs = the model; content lock held over load..store
+EXTRA_PROPS = ["ScrollFnsTables", "DedupeFnsTables", "C20Translated"]   # act_scroll_down / act_scroll_right as TRANSLATED from src/previewer.rs = the model; content lock held over load..store
 SUBMODULES = ["c20s"]          # session-level stream: the Model's wiring of the previewer, see c20s.py / session.py
 N_QUICK, N_THOROUGH = 200, 5000
 STRICT_MODEL = True
@@ -248,3 +248,5 @@ LEVEL_TEXT = ("Theorems c20_monotone / c20_latest / c20_kill / c20_single_child 
               "(real child processes) through Preview.step and by an executable spec judging the observations.")
 LEVEL_NOTE = ("partial: OS process behaviour is a parameter (process trees: SIGKILL reaches only the shell, a surviving grandchild delays the join; "
               "pid reuse between exit and kill); PreviewEvent::Abort (Drop) ends the modelled history; horizontal scroll and wrap are not covered.")
+
+TECHNIQUE += ' + translator tie: act_scroll_down / act_scroll_right arithmetic, the content-lock discipline and the dedupe condition of on_item_change translated from src/previewer.rs and proved equal to the model (Props/ScrollFnsTables.lean, DedupeFnsTables.lean, C20Translated.lean)'
